@@ -33,6 +33,9 @@ func init() {
 // residual effects accepted with a reason, keyed by function and effect signature
 var c14Allow = map[string]map[string]string{}
 
+// tabled reasons that presuppose a loop without early exit
+var c14AllowNeedsFullLoop = map[string]bool{}
+
 func allow14(fn, sig, why string) {
 	if c14Allow[fn] == nil {
 		c14Allow[fn] = map[string]string{}
@@ -52,6 +55,9 @@ func init() {
 	// work-list searches: the work list is local and the search result is a uniform constant
 	allow14("eval.entityInOne$1", "store:append[todo]", "monotone work-list search: the order of the local work list affects only the visiting order, every exit is a constant")
 	allow14("eval.entityInSet$1", "store:append[todo]", "monotone work-list search (as entityInOne)")
+	// … which holds only while the loop over the parents visits all of them: the reason is void if that loop can end early
+	c14AllowNeedsFullLoop["eval.entityInOne$1"] = true
+	c14AllowNeedsFullLoop["eval.entityInSet$1"] = true
 	// batch: variables are sorted right after being collected
 	allow14("batch.Authorize", "store:assign-elem[be.Variables]", "be.Variables = append(be.Variables, ...) collected from the map and sorted by slices.SortFunc immediately afterwards; ties (equal value-list lengths) only permute the enumeration order of the Cartesian product, which the property does not fix")
 	allow14("batch.Authorize$1", "store:assign-elem[]", "error for an unbound variable: API misuse, which variable is named is not an output of the property")
@@ -201,9 +207,11 @@ func runC14(p *Prog, r *Report) {
 				continue
 			}
 			if sens >= 2 {
-				if reason, ok := c14Allow[q][effSig(e)]; ok {
+				if reason, ok := c14Allow[q][effSig(e)]; ok && !(c14AllowNeedsFullLoop[q] && early) {
 					r.OK("R14.1-order-free", construct, epos, "tabled: "+reason)
 					continue
+				} else if ok {
+					why = "the tabled reason (" + reason + ") presupposes that the loop visits every element, and it can now end early"
 				}
 			}
 			switch sens {
@@ -222,6 +230,7 @@ func runC14(p *Prog, r *Report) {
 	checkUnorderedArgs(p, r, oa, rs)
 	checkNewSetOrder(p, r, oa, rs)
 	checkNoAddressInMessages(p, r, rs)
+	checkScheduleOrder(p, r, rs)
 	r.Floor("R14.1-order-free", 40)
 	r.Floor("R14.3-no-address", 50)
 }
@@ -946,4 +955,67 @@ func selfDelimitingConcat(root *ssa.BinOp) bool {
 		}
 	}
 	return true
+}
+
+// R14.5 schedule order: a goroutine started on an authorizer, encoder or decoder path may not append to (or insert into) a
+// collection it shares with its creator: the order of such appends is the order in which the goroutines happen to finish,
+// which no input determines. (Writing to disjoint, index-addressed slots is fine and is not flagged.) The library starts no
+// goroutines today; the rule exists because "compile the batches in parallel" is an optimisation someone will try.
+func checkScheduleOrder(p *Prog, r *Report, rs *reachSets) {
+	checkScheduleOrderAs(p, r, rs, "R14.5-schedule-order")
+}
+
+func checkScheduleOrderAs(p *Prog, r *Report, rs *reachSets, rule string) {
+	n := 0
+	for _, fn := range p.Funcs {
+		top := topOf(fn)
+		if !(rs.auth[top] || rs.enc[top] || rs.dec[top] || rs.auth[fn] || rs.enc[fn] || rs.dec[fn]) || testSupportPkgs[fnPkgPath(fn)] {
+			continue
+		}
+		forEachInstr(fn, func(in ssa.Instruction) {
+			g, ok := in.(*ssa.Go)
+			if !ok {
+				return
+			}
+			n++
+			var body *ssa.Function
+			switch x := g.Call.Value.(type) {
+			case *ssa.MakeClosure:
+				body, _ = x.Fn.(*ssa.Function)
+			case *ssa.Function:
+				body = x
+			}
+			construct := fnQual(fn) + ":go@" + itoa(n)
+			if body == nil {
+				r.Undec(rule, construct, p.pos(g.Pos()), "a goroutine is started on a function value that cannot be resolved")
+				return
+			}
+			var shared []string
+			for _, f := range withAnon(body) {
+				forEachInstr(f, func(in2 ssa.Instruction) {
+					switch y := in2.(type) {
+					case *ssa.Store:
+						if _, isFV := baseOf(y.Addr).(*ssa.FreeVar); !isFV {
+							return
+						}
+						if c, ok := y.Val.(*ssa.Call); ok && isBuiltin(&c.Call, "append") {
+							shared = append(shared, "append to "+describeVal(y.Addr)+" at "+p.pos(y.Pos()))
+						}
+					case *ssa.MapUpdate:
+						if ld, ok := y.Map.(*ssa.UnOp); ok {
+							if _, isFV := baseOf(ld.X).(*ssa.FreeVar); isFV {
+								shared = append(shared, "insert into "+describeVal(y.Map)+" at "+p.pos(y.Pos()))
+							}
+						}
+					}
+				})
+			}
+			sort.Strings(shared)
+			r.Check(len(shared) == 0, rule, construct, p.pos(g.Pos()), "the goroutine writes no shared collection in completion order",
+				"a goroutine started here grows a collection it shares with its creator ("+strings.Join(shared, "; ")+"): the elements end up in the order the goroutines finish, which varies from run to run")
+		})
+	}
+	if n == 0 {
+		r.OK(rule, "no-goroutines", "-", "no goroutine is started on an authorizer, encoder or decoder path")
+	}
 }
